@@ -223,6 +223,7 @@ class Oracle(reg.Machine):
         held = None
         S = self.slots
         outcome = None
+        inv_src = S[op[2]] if op[0] == "inv" and op[2] < len(S) and isinstance(S[op[2]], DomainS) else None
         try:
             outcome = self.execute(op)
         except BaseException as e:          # noqa
@@ -239,6 +240,17 @@ class Oracle(reg.Machine):
         if outcome[0] in ("created", "returned"):
             res = self.slots[op[1]] if op[1] < len(self.slots) else None
         # ---- C01 ---------------------------------------------------------
+        if inv_src is not None and res is not None and reg.FAIL[type(inv_src)] == "none" and inv_src.name.strip("*"):
+            # every class has its own memory: what ~x hands out is THE live object of x's class with the complementary
+            # name, i.e. what both keys lead to in the registries of type(x) (and of no other class instead)
+            K = type(inv_src)
+            cn = inv_src.name[:-1] if inv_src.name.endswith("*") else inv_src.name + "*"
+            if type(res) is not K or K._instanceNames.get(cn) is not res or K._instanceCanon.get((cn, inv_src.length)) is not res:
+                self.bad("C01", f"~{inv_src!r} (a {reg.label(K)}) handed out {res!r} (a {reg.label(type(res))}), which is not "
+                                f"what the name {cn!r} / the canonical form {(cn, inv_src.length)!r} lead to in {reg.label(K)}: "
+                                f"{K._instanceNames.get(cn)!r}")
+            K = None
+        inv_src = None
         if res is not None and id(res) in before_live and id(res) not in reach_before:
             self.bad("C01", f"the request handed out {res!r}, which existed before the request although every reference "
                             f"to it had been dropped (a dropped object is not live: the request must create or refuse)")
@@ -442,6 +454,40 @@ class Oracle(reg.Machine):
         out = self.run_op(op)
         return out[:2] if out[0] == "raised" else out[:1]
 
+    def probe_dropped(self):
+        """C01 at the end of a history: an object that is still there although nothing reaches it (something inside
+        the library holds on to it) is not live; the requests that would meet it -- a look-up of its name, its canonical
+        form under another name -- are made in a fresh slot and judged by the statements of step().  Returns the
+        requests made (they become part of the reported history)."""
+        reach = self.reachable()
+        zombies = [o for o in self.live() if id(o) not in reach and reg.FAIL[type(o)] == "none"]
+        reach = None
+        todo = []
+        for z in zombies:
+            c, k = reg.ZOO.index(type(z)), reg.KIND[type(z)]
+            if k == "D":
+                if z.name.strip("*") and not z.name.endswith("**"):
+                    todo.append(["dom", None, c, z.name, z.length + 1, None, None])
+            elif k == "C":
+                todo.append(["cplx", None, c, None, None, z.name, None])
+            elif k == "S":
+                todo.append(["strand", None, c, None, z.name, None])
+            elif k == "M":
+                todo.append(["macro", None, c, None, z.name])
+            else:
+                todo.append(["rxn", None, c, None, None, z.name])
+        z = None
+        del zombies
+        done = []
+        for op in todo[:6]:
+            self.slots.append(None)
+            op[1] = len(self.slots) - 1
+            done.append(op)
+            self.step(op)
+            if self.fail:
+                break
+        return done
+
     def finale(self):
         """drop everything: every object must be released and every name redefinable"""
         seen = []
@@ -477,17 +523,22 @@ def run_one(k, h, payload, failures):
     reg.reset()
     o = Oracle(h["nslots"], payload["checks"], payload.get("deep", False))
     try:
+        probes = []
         for j, op in enumerate(h["ops"]):
             o.step(op)
+            if reg.READS[0]:
+                reg.read_accessors(o.slots)
             steps += 1
             if o.fail:
                 break
         else:
             j = len(h["ops"]) - 1
-            if "C05" in o.checks:
+            if "C01" in o.checks and o.deep:
+                probes = o.probe_dropped()
+            if "C05" in o.checks and not o.fail:
                 o.finale()
         for check, what in o.fail[:3]:
-            failures.append({"history": k, "step": j, "ops": h["ops"][:j + 1], "nslots": h["nslots"],
+            failures.append({"history": k, "step": j + len(probes), "ops": h["ops"][:j + 1] + probes, "nslots": len(o.slots),
                              "check": check, "what": what})
             if h.get("zoo"):
                 failures[-1]["zoo"] = h["zoo"]
